@@ -20,7 +20,12 @@ type case = {
   mutable ast_reparsed : node option;
 }
 
-let fresh () = {
+(* raw (unresolved) configuration for the to_config model *)
+let raw_opts : (string * string) list ref = ref []
+let raw_methods : raw_method list ref = ref []
+let raw_has_methods = ref false
+
+let fresh () = raw_opts := []; raw_methods := []; raw_has_methods := false; {
   id = ""; prefix = ""; methods = []; litcallers = []; verb = VInformation; literals = true;
   chain = false; comments = false; prestmts = []; file = ""; src = "";
   ast_in = None; ast_out = None; ast_reparsed = None }
@@ -111,11 +116,33 @@ let () =
        | [ "IN"; s ] -> !c.ast_in <- Some (parse_sexp s)
        | [ "OUT"; s ] -> !c.ast_out <- Some (parse_sexp s)
        | [ "REPARSED"; s ] -> !c.ast_reparsed <- Some (parse_sexp s)
+       | [ "RAWOPT"; k; v ] -> raw_opts := (k, unescape v) :: !raw_opts
+       | [ "RAWMETHODS" ] -> raw_has_methods := true
+       | [ "RAWMETHOD"; src; dst; op; awc ] ->
+           let ob = function "1" -> Some true | "0" -> Some false | _ -> None in
+           raw_methods := { rm_src = explode (unescape src);
+                            rm_dst = (if dst = "-" then None else Some (explode (unescape (String.sub dst 1 (String.length dst - 1)))));
+                            rm_operator = ob op; rm_awc = ob awc } :: !raw_methods
        | [ "RUN"; what ] ->
            let parts = String.split_on_char ',' what in
            let res = ref [ ("id", JS !c.id) ] in
            (try
               if List.mem "model" parts then res := !res @ run_model parts !c;
+              if List.mem "toconfig" parts then begin
+                let ob k = match List.assoc_opt k !raw_opts with Some "1" -> Some true | Some "0" -> Some false | _ -> None in
+                let os k = match List.assoc_opt k !raw_opts with Some v -> Some (explode v) | None -> None in
+                let raw = { r_chain = ob "chain"; r_comments = ob "comments"; r_prefix = os "prefix";
+                            r_methods_opt = (if !raw_has_methods then Some (List.rev !raw_methods) else None);
+                            r_verbosity = os "verbosity"; r_literals = ob "literals" } in
+                let cfg = to_config (fun i -> O) raw in
+                let vs = function VOff -> "OFF" | VMandatory -> "MANDATORY" | VInformation -> "INFORMATION" | VDebug -> "DEBUG" in
+                res := !res @ [
+                  ("tc_chain", JB cfg.c_chain); ("tc_comments", JB cfg.c_comments); ("tc_literals", JB cfg.c_literals);
+                  ("tc_verbosity", JS (vs cfg.c_verbosity)); ("tc_prefix", JS (implode cfg.c_prefix));
+                  ("tc_lit_callers", JL (List.map (fun s -> JS (implode s)) cfg.c_lit_callers));
+                  ("tc_methods", JL (List.map (fun m -> JL [ JS (implode m.m_src); JS (implode m.m_dst); JB m.m_operator; JB m.m_awc ]) cfg.c_methods));
+                  ("tc_prologue_text", JS (implode (prologue_text cfg.c_methods))) ]
+              end;
               res := !res @ Validate.run !c.prefix (config_of !c) parts !c.src
                               !c.ast_in !c.ast_out !c.ast_reparsed
             with
